@@ -54,6 +54,8 @@ pub struct Tok {
     pub start: usize,
     pub end: usize,
     pub kind: Kind,
+    /// scanned in asm mode (between an `asm` keyword and the closing `end`, both exclusive)
+    pub asm: bool,
 }
 
 impl Tok {
@@ -291,9 +293,10 @@ impl<'a> Scanner<'a> {
         self.skip_blanks();
         let start = self.pos;
         let Some(c) = self.s[start..].chars().next() else {
-            return Tok { ws_start, start, end: start, kind: Kind::Eof };
+            return Tok { ws_start, start, end: start, kind: Kind::Eof, asm: false };
         };
         let b = self.b;
+        let was_asm = self.in_asm;
         let (end, kind): (usize, Kind) = match c {
             '/' if self.peek(1) == Some(b'/') => {
                 (self.run(start + 2, |c| c != b'\n' && c != b'\r'), Kind::CommentLine)
@@ -404,7 +407,7 @@ impl<'a> Scanner<'a> {
             self.prev_real_is_dot = kind == Kind::Op && &self.s[start..end] == ".";
         }
         self.pos = end;
-        Tok { ws_start, start, end, kind }
+        Tok { ws_start, start, end, kind, asm: was_asm && self.in_asm }
     }
 }
 
@@ -465,6 +468,7 @@ pub fn scan_impl(s: &str) -> Vec<Tok> {
             start: pos + ws,
             end: pos + ws + len,
             kind: coarse(t.get_token_type()),
+            asm: false,
         });
         pos += ws + len;
     }
